@@ -78,9 +78,12 @@ class HashTable:
                 values = np.asanyarray(values)
                 self._values = RaggedArray(values[args], self._keys._shape)
         self._safe_mode = safe_mode
-        self._value_dtype = (
-            value_dtype if isinstance(self._values, Number) else self._values.dtype
-        )
+        if isinstance(self._values, Number):
+            # constant-valued table: the dtype of the value itself (an unset dtype would
+            # make _fill_values build the per-key values in the dtype of the *keys*)
+            self._value_dtype = value_dtype if value_dtype is not None else np.asarray(self._values).dtype
+        else:
+            self._value_dtype = self._values.dtype
         self._key_dtype = self._keys.dtype
 
     def _get_indices(self, keys):
